@@ -39,13 +39,12 @@ impl TlsHandshaker {
         let stream = match connector.connect(domain, stream) {
             Ok(stream) => stream,
             Err(HandshakeError::Failure(err)) => return Err(err.into()),
-            Err(HandshakeError::WouldBlock(mut stream)) => loop {
-                match stream.handshake() {
-                    Ok(stream) => break stream,
-                    Err(HandshakeError::Failure(err)) => return Err(err.into()),
-                    Err(HandshakeError::WouldBlock(mid_stream)) => stream = mid_stream,
-                }
-            },
+            Err(HandshakeError::WouldBlock(_)) => {
+                // The sockets used here are blocking, so this is not "try again later": the read
+                // timeout expired while waiting for the peer's handshake messages. Retrying would
+                // wait for the peer forever.
+                return Err(io::Error::from(io::ErrorKind::WouldBlock).into());
+            }
         };
         Ok(TlsStream { inner: stream })
     }
